@@ -28,9 +28,10 @@ def witness_search(tier, seed):
     try:
         cases = []
         for enc, text, ext in (("utf-8", "#TITLE:a;#ARTIST:x;", ".sm"), ("cp1252", "#TITLE:caf\xe9;#ARTIST:x;", ".sm"),
+                               ("utf-8", "#TITLE:a;#NOTES:dance-single:d:Easy:1:0,0,0,0,0:0000;", ".sm"),
                                ("utf-8", "#VERSION:0.83;#TITLE:a;#NOTEDATA:;#STEPSTYPE:x;#NOTES:0000;", ".ssc")):
             for out, bak in ((None, None), (None, "bak" + ext), ("out" + ext, "bak" + ext)):
-                for what in ("raise-KeyboardInterrupt", "raise-ValueError", "cancel", "unserializable", "unencodable", "chart-without-notes", "backup-unopenable"):
+                for what in ("raise-KeyboardInterrupt", "raise-ValueError", "cancel", "unserializable", "unencodable", "chart-without-notes", "backup-unopenable", "output-unopenable"):
                     cases.append((enc, text, ext, out, bak, what))
         for enc, text, ext, out, bak, what in cases:
             if what == "chart-without-notes" and ext != ".ssc":
@@ -41,6 +42,10 @@ def witness_search(tier, seed):
                 if not bak:
                     continue
                 bak = os.path.join("missing-dir", bak)
+            if what == "output-unopenable":
+                if not (out and bak):
+                    continue
+                out = os.path.join("missing-dir", out)
             for f in os.listdir(d):
                 os.remove(os.path.join(d, f))
             p = os.path.join(d, "in" + ext)
@@ -56,6 +61,9 @@ def witness_search(tier, seed):
             try:
                 with simfile.mutate(p, **kw) as sf:
                     sf.title = "edited"
+                    if sf.charts:            # edits below the top level too: the charts are shared by a shallow copy
+                        sf.charts[0].description = "edited description"
+                        sf.charts.append(sf.charts[0])
                     if what == "raise-KeyboardInterrupt":
                         raise KeyboardInterrupt()
                     if what == "raise-ValueError":
